@@ -243,7 +243,9 @@ impl Prop for C01 {
                     tree.files.insert(case.path.clone(), TFile { data: B(d.clone()), mode: 0o644 });
                 }
                 tree.files.insert("other.txt".into(), TFile { data: B::new("untouched\n"), mode: 0o644 });
-                let series = format!("p.patch -p{}{}\n", case.strip, if reverse { " -R" } else { "" });
+                // with -p1 sometimes rely on the default strip level
+                let strip_opt = if case.strip == 1 && case.patch.len() % 2 == 0 { String::new() } else { format!(" -p{}", case.strip) };
+                let series = format!("p.patch{}{}\n", strip_opt, if reverse { " -R" } else { "" });
                 let spec = WsSpec { tree: tree.clone(), patches: vec![("p.patch".into(), case.patch.clone())], series: B::new(series), applied: None, dirs: vec![] };
                 let root = cx.env.fresh_dir("c01-");
                 spec.materialise(&root);
